@@ -200,3 +200,223 @@ pub fn stub_str_repeat_len_only(s: &str, n: usize) -> String {
     // never written, never dropped (callers `mem::forget` the owner)
     unsafe { String::from_raw_parts(BACKING.as_ptr() as *mut u8, len, len) }
 }
+
+// ---------------------------------------------------------------------------------------------
+// Symbolic strings of exact length over a symbol table, and small string oracles.
+
+/// `prefix` followed by `n` symbolic bytes drawn from `table` (exact length: one harness
+/// instance per length).
+pub fn sym_text(prefix: &[u8], n: usize, table: &[u8], suffix: &[u8]) -> &'static str {
+    let mut v = Vec::with_capacity(prefix.len() + n + suffix.len());
+    let mut k = 0;
+    while k < prefix.len() {
+        v.push(prefix[k]);
+        k += 1;
+    }
+    let mut k = 0;
+    while k < n {
+        v.push(pick(table));
+        k += 1;
+    }
+    let mut k = 0;
+    while k < suffix.len() {
+        v.push(suffix[k]);
+        k += 1;
+    }
+    leak_str(v)
+}
+
+/// Blank test on bytes for texts whose only non-ASCII blank is U+3000 (E3 80 80): returns the
+/// length of the blank starting at `i` (0 if the byte at `i` does not start a blank).
+pub fn blank_len_at(s: &[u8], i: usize) -> usize {
+    if s[i] <= 0x20 {
+        1
+    } else if s[i] == 0xE3 && i + 2 < s.len() && s[i + 1] == 0x80 && s[i + 2] == 0x80 {
+        3
+    } else {
+        0
+    }
+}
+
+/// nb(a) == nb(b): the subsequences of non-blank bytes are equal (byte-exact, case-sensitive).
+/// `budget` bounds the loop (>= a.len() + b.len() + 1).
+pub fn nb_eq(a: &[u8], b: &[u8], budget: usize) -> bool {
+    let (mut i, mut j) = (0usize, 0usize);
+    let mut steps = 0;
+    while steps < budget {
+        steps += 1;
+        if i < a.len() {
+            let bl = blank_len_at(a, i);
+            if bl > 0 {
+                i += bl;
+                continue;
+            }
+        }
+        if j < b.len() {
+            let bl = blank_len_at(b, j);
+            if bl > 0 {
+                j += bl;
+                continue;
+            }
+        }
+        if i >= a.len() || j >= b.len() {
+            return i >= a.len() && j >= b.len();
+        }
+        if a[i] != b[j] {
+            return false;
+        }
+        i += 1;
+        j += 1;
+    }
+    false
+}
+
+pub fn bytes_eq(a: &[u8], b: &[u8]) -> bool {
+    if a.len() != b.len() {
+        return false;
+    }
+    let mut i = 0;
+    while i < a.len() {
+        if a[i] != b[i] {
+            return false;
+        }
+        i += 1;
+    }
+    true
+}
+
+pub fn contains_byte(a: &[u8], x: u8) -> bool {
+    let mut i = 0;
+    while i < a.len() {
+        if a[i] == x {
+            return true;
+        }
+        i += 1;
+    }
+    false
+}
+
+/// Copies a token's content into a leaked buffer (so that it survives later mutation).
+pub fn snapshot(s: &str) -> &'static [u8] {
+    let mut v = Vec::with_capacity(s.len());
+    let b = s.as_bytes();
+    let mut i = 0;
+    while i < b.len() {
+        v.push(b[i]);
+        i += 1;
+    }
+    Box::leak(v.into_boxed_slice())
+}
+
+#[macro_export]
+macro_rules! str_harness {
+    ($(#[$m: meta])* fn $name: ident () unwind($u: expr) $body: block) => {
+        $crate::harness! {
+            $(#[$m])*
+            fn $name() unwind($u) stubs(std::string::String::push_str => crate::common::stub_push_str, std::string::String::push => crate::common::stub_push, log::max_level => crate::common::stub_log_max_level_off) $body
+        }
+    };
+}
+
+/// `format!` builds warning/error messages only; its result is never inspected by the code
+/// under test. Stub: empty string.
+pub fn stub_fmt_format(_args: std::fmt::Arguments<'_>) -> String {
+    String::new()
+}
+
+/// Naive models of core's internal byte searches (used by str::split / rfind / contains).
+pub fn stub_memchr(x: u8, text: &[u8]) -> Option<usize> {
+    let mut i = 0;
+    while i < text.len() {
+        if text[i] == x {
+            return Some(i);
+        }
+        i += 1;
+    }
+    None
+}
+
+pub fn stub_memrchr(x: u8, text: &[u8]) -> Option<usize> {
+    let mut i = text.len();
+    while i > 0 {
+        i -= 1;
+        if text[i] == x {
+            return Some(i);
+        }
+    }
+    None
+}
+
+// TokenMarker is a hash set of token indices (hashbrown is far too expensive for CBMC): modelled
+// as a 16-entry bitmap. Harnesses using these stubs only ever mark indices < 16.
+pub static mut MARKS: [bool; 16] = [false; 16];
+
+pub fn stub_marker_mark(_m: &mut pasfmt_core::formatter::TokenMarker, element: usize) -> bool {
+    assert!(element < 16);
+    unsafe {
+        let was = MARKS[element];
+        MARKS[element] = true;
+        !was
+    }
+}
+
+pub fn stub_marker_is_marked(_m: &pasfmt_core::formatter::TokenMarker, element: &usize) -> bool {
+    if *element >= 16 {
+        return false;
+    }
+    unsafe { MARKS[*element] }
+}
+
+// memchr crate (run-time CPU detection through inline asm is not encodable): naive loops.
+pub fn stub_memchr1(n1: u8, haystack: &[u8]) -> Option<usize> {
+    stub_memchr(n1, haystack)
+}
+
+pub fn stub_memchr2(n1: u8, n2: u8, haystack: &[u8]) -> Option<usize> {
+    let mut i = 0;
+    while i < haystack.len() {
+        if haystack[i] == n1 || haystack[i] == n2 {
+            return Some(i);
+        }
+        i += 1;
+    }
+    None
+}
+
+pub fn stub_memchr3(n1: u8, n2: u8, n3: u8, haystack: &[u8]) -> Option<usize> {
+    let mut i = 0;
+    while i < haystack.len() {
+        if haystack[i] == n1 || haystack[i] == n2 || haystack[i] == n3 {
+            return Some(i);
+        }
+        i += 1;
+    }
+    None
+}
+
+pub fn stub_memmem_find(haystack: &[u8], needle: &[u8]) -> Option<usize> {
+    if needle.len() > haystack.len() {
+        return None;
+    }
+    let mut s = 0;
+    while s + needle.len() <= haystack.len() {
+        let mut all = true;
+        let mut k = 0;
+        while k < needle.len() {
+            all &= haystack[s + k] == needle[k];
+            k += 1;
+        }
+        if all {
+            return Some(s);
+        }
+        s += 1;
+    }
+    None
+}
+
+/// No logger is ever installed in pasfmt-core's callers under verification: `log::max_level()`
+/// is `Off`, so every `warn!`/`debug!`/`trace!` reduces to this check. Stubbing it makes that
+/// explicit for the solver (otherwise the whole `fmt` machinery behind each message is encoded).
+pub fn stub_log_max_level_off() -> log::LevelFilter {
+    log::LevelFilter::Off
+}
